@@ -31,6 +31,8 @@ def run(chk):
     srcs = [("selfrep", "DEFINE a AS a END DEFINE\nx := 1; a"), ("grow", "DEFINE g AS x := 1 ; g END DEFINE\ng"),
             ("mutual", "DEFINE PRIO 3 p AS q END DEFINE DEFINE PRIO 7 q AS p ; x := 1 END DEFINE\nx := 2; p"),
             ("finite", "DEFINE t AS x := 1 END DEFINE\nt ; t ; t"),
+            # self-reproducing, and what is left when the budget runs out is a valid program: only the budget error can mark it incorrect
+            ("selfvalid", "DEFINE a := 1 AS a := 1 END DEFINE\na := 1; b := a"),
             # inserts its slot twice and matches its own output: without a bound on the stream it doubles with every pass
             ("doubling", "DEFINE w <V> AS w RUN f WITH $0 , $0 END END DEFINE\nw a")]
     recs, rc, err = run_th(th, ["compile"], [{"i": i, "files": {"m": s}, "main": "m", "watch": 300} for i, (_, s) in enumerate(srcs)], timeout=900)
